@@ -590,7 +590,7 @@ def run(tier, seed):
         json.dump(doc, open(path, "w"), indent=1)
         k = next((k for k in known if k["match"].get("class") == "variant-does-not-compile" and k["match"].get("subject") == name), None)
         (known_hits if k else new_violations).append((k, doc, path))
-    n_var_runs = {"quick": 1500, "thorough": 60000}[tier]
+    n_var_runs = {"quick": 5000, "thorough": 60000}[tier]
     vbase = C.mix(seed, C.tag("C20-variants"))
     var_ops = 0
     var_disagree = {}
